@@ -607,8 +607,9 @@ func docsReadable(op string, a []string) string {
 func init() {
 	tb := append(append([]string{}, leanTB...), "Model/Codec.lean schema interpreter + the schemas of the real document types read with reflect at run time", "the Debian field tables in harness/props/docs.go (written from Policy / dsc(5) / deb-changes(5) / apt index formats) are the specification of which field must land where; they are evaluated on the implementation (law-doc), not yet restated in Lean")
 	core.Register(&core.Property{
-		ID: "C10", PropsModule: "GoDebian.Props.C10",
-		Facts: []string{"fingerprint:control.decodeStruct", "fingerprint:control.decodeStructValue", "fingerprint:control.decodeStructValueSlice",
+		ID: "C10", PropsModule: "GoDebian.Props.C10", TieModule: "GoDebian.Tie.Docs",
+		Facts: []string{"schema:control.DSC", "schema:control.Changes", "schema:control.SourceParagraph", "schema:control.BinaryParagraph",
+			"schema:control.BinaryIndex", "schema:control.SourceIndex", "schema:control.BestChecksums", "schema:deb.Control", "fingerprint:control.decodeStruct", "fingerprint:control.decodeStructValue", "fingerprint:control.decodeStructValueSlice",
 			"fingerprint:control.FileHash.unmarshalControl", "fingerprint:control.FileListChangesFileHash.UnmarshalControl", "fingerprint:control.ParseControl",
 			"fingerprint:control.ParseDsc", "fingerprint:control.ParseChanges", "fingerprint:control.ParseBinaryIndex", "fingerprint:control.ParseSourceIndex",
 			"fingerprint:control.DSC.Maintainers", "fingerprint:control.DSC.HasArchAll", "fingerprint:control.DSC.AbsFiles", "fingerprint:control.DSC.DebianSource",
